@@ -15,7 +15,15 @@ from mc.core import Result, Violation
 from mc.ref import interp, tracegrammar
 
 ALPHA_FULL = ["src", "srcdef", "paysrc", "mul", "muldef", "ctxw", "fail", "badw", "interrupt", "abort", "sysexit", "sum", "probe_factor",
-              "ren_r_factor", "del_factor", "slice_mul", "sweep_op", "sink_ctx", "bogus", "probe_nokey", "unknown", "two"]
+              "ren_r_factor", "del_factor", "slice_mul", "sweep_op", "sink_ctx", "bogus", "probe_nokey", "unknown", "two",
+              "slice_mul3", "slice_muldef", "sweep_two", "sweep_probe"]
+# pipelines holding two DIFFERENT generated classes of the same family (same module + qualname, different parameter tables / bindings)
+SAME_FAMILY_PROGS = [
+    ("sweep_src", "slice_mul3", "slice_muldef"), ("sweep_src", "slice_muldef", "slice_mul3"), ("sweep_src", "slice_mul", "slice_muldef", "sum"),
+    ("src", "sweep_op", "sum", "sweep_two"), ("src", "sweep_two", "sum", "sweep_op"), ("src", "sweep_two", "slice_mul3", "slice_muldef", "sum"),
+    ("src", "sweep_probe", "sweep_two", "sum"), ("src", "probe_r", "probe_factor", "tmpl_a", "tmpl_path"), ("src", "probe_factor", "ren_factor_a", "probe_r", "ren_r_factor"),
+    ("sweep_src", "slice_probe", "sum", "probe_r"), ("src", "sink_cfg", "sink_ctx", "sink"), ("src", "mul3", "mul", "muldef"),
+]
 ALPHA_SMALL = ["src", "mul", "muldef", "fail", "badw", "interrupt", "abort", "sum", "probe_factor", "ren_r_factor", "bogus", "probe_nokey", "sink"]
 
 
@@ -107,6 +115,7 @@ def plan(tier: str):
     else:
         progs = gen.programs(ALPHA_FULL, [1, 2, 3]) + gen.programs(ALPHA_SMALL, [4])
         details, modes = ["hash", "repr", "context", "all"], ["file", "dir"]
+    progs = list(progs) + list(SAME_FAMILY_PROGS)
     jobs = []
     for i, p in enumerate(sorted(set(progs))):
         if len(p) <= 2:
